@@ -156,6 +156,9 @@ func checkC18(c *Case, st *Stats) *Failure {
 			fail = f
 		}
 	}
+	if tr.InfoChanged != "" {
+		setFail(&Failure{"info-changed-later", tr.InfoChanged})
+	}
 	for i, op := range c.Ops {
 		out := tr.Ops[i]
 		if out.Panicked {
